@@ -92,6 +92,18 @@ def classify(f, q, st, store, dest, cfg, types):
     # (1) capacity test on an enclosing if / while
     for e, fld in encl:
         if isinstance(e, (ast.If, ast.While)) and fld == 'body' and any(w in norm(e.test) for w in CAPACITY_WORDS):
+            # a pointer bound compared with `<=` must be the address of the LAST slot (end minus one item)
+            t = e.test
+            if isinstance(t, ast.Compare) and len(t.ops) == 1 and isinstance(t.ops[0], ast.LtE) and isinstance(t.comparators[0], ast.Name) \
+                    and t.comparators[0].id.endswith('ptr'):
+                bound = t.comparators[0].id
+                defs = [d for d in iter_child_stmts(f.body) if isinstance(d, ast.Assign) and norm(d.targets[0]) == bound]
+                last_slot = bool(defs) and all(isinstance(d.value, ast.BinOp) and isinstance(d.value.op, ast.Sub) and
+                                               (norm(d.value.right) == 'itemsize' or (isinstance(d.value.right, ast.Constant) and d.value.right.value >= 1))
+                                               for d in defs)
+                if not last_slot:
+                    return 'UNGUARDED', 'under `%s`, but %s is the end of the buffer, not its last slot (%s): the store at the end is let through' % (
+                        norm(t)[:40], bound, [norm(d.value)[:50] for d in defs])
             return 'GUARDED', 'under `%s`' % norm(e.test)[:60]
     # (2) NumpyIO checked writers: an early-return capacity test precedes the store
     for s in f.body:
